@@ -5,6 +5,7 @@ import Lemmas.CmdlineContrast
 import Lemmas.CmdlineDecl
 import Lemmas.CmdlineFull
 import Lemmas.CmdlineConv
+import Lemmas.CmdlineFuel
 /-! # C10 — command-line parsing assigns exactly what the arguments say
 
 `Cmd.scan tbl acc files args` is the model of the argument loop of `(*CmdLine).Parse`, `Cmd.parse` adds the
@@ -101,7 +102,7 @@ theorem flag_accepts_true (orc : Oracle) : typed orc .bool strTrue = some "true"
 /-- for a declared option the abstract acceptance is the typed `Set` of its kind (values.go) -/
 theorem declared_accepts (orc : Oracle) (incl : Bool) (decls : List Decl) (i : Nat) (d : Decl)
     (hd : decls[i]? = some d) (v : Str) :
-    acceptsOf orc incl decls (firstUserId + i) v = (typed orc d.kind.base v).isSome :=
+    acceptsOf orc incl decls (firstUserId + i) v = (d.kind.supported && (typed orc d.kind.base v).isSome) :=
   acceptsOf_user orc incl decls i d hd v
 
 /-- an accepted signed integer fits the declared width, so the narrowing conversion in values.go stores it exactly -/
@@ -120,19 +121,20 @@ theorem uint_value_in_range (bits : Nat) (s : Str) (v : Int) (h : parseUint bits
 theorem declared_short_spellings_valid (orc : Oracle) (incl : Bool) (decls : List Decl) (es : Entries)
     (hb : build incl decls = some es) (i : Nat) (d : Decl) (hd : decls[i]? = some d)
     (h0 : 0 < d.single) (h1 : d.single ≤ 1114111) (hs : d.single < 55296 ∨ 57343 < d.single) (h45 : d.single ≠ 45)
-    (hk : d.kind.isBool = false) (v : Str) (hv : (typed orc d.kind.base v).isSome = true) :
+    (hk : d.kind.isBool = false) (hsup : d.kind.supported = true) (v : Str)
+    (hv : (typed orc d.kind.base v).isSome = true) :
     (Spell.shortSep [] (encodeRune d.single) ⟨firstUserId + i, false⟩ v).Valid (tableOf es) (acceptsOf orc incl decls) ∧
     (Spell.shortEq [] (encodeRune d.single) ⟨firstUserId + i, false⟩ v).Valid (tableOf es) (acceptsOf orc incl decls) :=
-  declared_short_valid orc incl decls es hb i d hd h0 h1 hs h45 hk v hv
+  declared_short_valid orc incl decls es hb i d hd h0 h1 hs h45 hk hsup v hv
 
 /-- … and with a long name that contains no `=`, `--name=value` and `--name value` are -/
 theorem declared_long_spellings_valid (orc : Oracle) (incl : Bool) (decls : List Decl) (es : Entries)
     (hb : build incl decls = some es) (i : Nat) (d : Decl) (hd : decls[i]? = some d) (n : Str)
-    (hn : d.name = some n) (heq : 61 ∉ n) (hk : d.kind.isBool = false) (v : Str)
+    (hn : d.name = some n) (heq : 61 ∉ n) (hk : d.kind.isBool = false) (hsup : d.kind.supported = true) (v : Str)
     (hv : (typed orc d.kind.base v).isSome = true) :
     (Spell.longEq n ⟨firstUserId + i, false⟩ v).Valid (tableOf es) (acceptsOf orc incl decls) ∧
     (Spell.longSep n ⟨firstUserId + i, false⟩ v).Valid (tableOf es) (acceptsOf orc incl decls) :=
-  declared_long_valid orc incl decls es hb i d hd n hn heq hk v hv
+  declared_long_valid orc incl decls es hb i d hd n hn heq hk hsup v hv
 
 /-- … and for a declared `*bool` option the flag spellings: `--flag` (name without `=`) and `-f` (any Unicode scalar
     value except `-`); `Set("true")` is accepted by construction of `ParseBool` -/
@@ -182,10 +184,19 @@ the Go variables — reads that store.  The integer, bool and string conversions
 
 /-- one `Set` call, uniformly: the conversion of the kind decides acceptance and the stored value; a scalar variable
     is overwritten, a slice variable (and the harness's logging value) is appended to -/
-theorem set_semantics (orc : Oracle) (k : Kind) (cur : Var) (raw : Str) :
+theorem set_semantics (orc : Oracle) (k : Kind) (cur : Var) (raw : Str) (hsup : k.supported = true) :
     setVar orc k cur raw =
       (typed orc k.base raw).map (fun t => if k.slice || k.base == .log then cur ++ [t] else [t]) :=
-  setVar_eq orc k cur raw
+  setVar_eq orc k cur raw hsup
+
+/-- **`*[]float32` and `*[]float64` are not supported value types**: `GeneralValue.Set` has no case for them (values.go
+    answers "unhandled type"), so every `Set` fails — whatever the text — and every assignment to such an option is
+    refused by `acceptsOf`, i.e. any spelling that names it is `Malformed.rejected` and the parse is fatal -/
+theorem slice_of_float_unsupported (orc : Oracle) (incl : Bool) (decls : List Decl) (i : Nat) (d : Decl)
+    (hd : decls[i]? = some d) (hk : d.kind = ⟨.f32, true⟩ ∨ d.kind = ⟨.f64, true⟩) (cur : Var) (v : Str) :
+    setVar orc d.kind cur v = none ∧ acceptsOf orc incl decls (firstUserId + i) v = false := by
+  rw [acceptsOf_user orc incl decls i d hd]
+  rcases hk with h | h <;> rw [h] <;> simp [setVar, Kind.supported]
 
 /-- every option variable sees exactly the `Set` calls that name it, in the order of the run, starting from its
     contents before the run -/
@@ -229,9 +240,9 @@ theorem last_assignment_wins (orc : Oracle) (incl : Bool) (decls : List Decl) (s
 /-- **slice options append**: the old contents, then the typed value of every accepted assignment, in order -/
 theorem slice_appends (orc : Oracle) (incl : Bool) (decls : List Decl) (sets : List (Nat × Str))
     (st : Store) (id : Nat) (k : Kind) (hk : kindOfId incl decls id = some k)
-    (hs : (k.slice || k.base == .log) = true) :
+    (hsup : k.supported = true) (hs : (k.slice || k.base == .log) = true) :
     (applySets orc incl decls st sets).get id = st.get id ++ (assigned id sets).filterMap (typed orc k.base) := by
-  rw [get_applySets, foldl_append_kind orc incl decls id k hk hs]
+  rw [get_applySets, foldl_append_kind orc incl decls id k hk hsup hs]
 
 /-- what the check compares with the Go variables after a valid vector: the store after exactly the spelled
     assignments, in order, and the positionals -/
@@ -266,6 +277,13 @@ theorem conversion_independent_of_oracle (orc orc' : Oracle) (b : Base) (s : Str
 theorem duration_value_in_range (s : Str) (v : Int) (h : parseDuration s = some v) :
     -((2 ^ 63 : Nat) : Int) ≤ v ∧ v < ((2 ^ 63 : Nat) : Int) :=
   parseDuration_range s v h
+
+/-- **the fuel of the duration loop never runs out**: `parseDuration` runs `durLoop` with the length of the text as fuel;
+    every `number unit` group consumes at least one byte, so any two amounts of fuel ≥ the length give the same answer —
+    a `none` is a refusal by one of the rules of `time.ParseDuration`, never an artefact of the bound -/
+theorem duration_fuel_suffices (n m : Nat) (s : Str) (d : Nat) (hn : s.length ≤ n) (hm : s.length ≤ m) :
+    durLoop n s d = durLoop m s d :=
+  durLoop_fuel n m s d hn hm
 
 /-- CONTRAST: a `*float32` option converted at 64 bits and then narrowed (`float32(ParseFloat(s, 64))`) rounds twice.
     For the text 1.00000005960464477539062500000000000000001, just above the midpoint of 1 and its float32 successor,
@@ -632,5 +650,8 @@ example : typed [] .f64 [110, 97, 110] = some "7ff8000000000001" := by decide
 example : typed [] .f64 [48, 120, 49, 112, 45, 50] = none ∧
     typed [(tagF64, [48, 120, 49, 112, 45, 50], "3fd0000000000000")] .f64 [48, 120, 49, 112, 45, 50] =
       some "3fd0000000000000" := by decide
+
+/-! below the bound the fuel does matter (so `duration_fuel_suffices` needs its hypotheses): `1h1m` with fuel 1 and 4 -/
+example : durLoop 1 [49, 104, 49, 109] 0 = none ∧ durLoop 4 [49, 104, 49, 109] 0 = some 3660000000000 := by decide
 
 end C10
